@@ -19,9 +19,11 @@ type delivery struct {
 	to  int
 	p   *Payload
 	seq int
+	tx  Tx // non-empty: not a payload but a transaction the node asked for (RequestTx), supplied through OnTransaction
 }
 
 type timedRun struct {
+	txMiss      bool // a validator's pool may lack transactions of the proposal: it asks for them (RequestTx) and gets them a little later
 	c           *Cluster
 	rng         *mrand.Rand
 	q           []delivery
@@ -102,6 +104,15 @@ func (t *timedRun) setupPool(n *Node) {
 		for k := 0; k < r.Intn(3); k++ {
 			n.Pool = append(n.Pool, Tx(fmt.Sprintf("t%d.%d", h, k)))
 		}
+		if t.txMiss && int(h)%len(t.vals) != indexOf(t.vals, n.ID) && t.rng.Intn(2) == 0 {
+			// ... but a backup need not have heard of every transaction yet (no fault: it fetches what the proposal names)
+			n.Pool = nil
+			for k := 0; k < 2; k++ {
+				if t.rng.Intn(2) == 0 {
+					delete(n.Known, Tx(fmt.Sprintf("t%d.%d", h, k)).Hash())
+				}
+			}
+		}
 	}
 }
 
@@ -111,6 +122,20 @@ func (t *timedRun) after(n *Node, l *Line) {
 	for _, cb := range l.Cb {
 		if cb.K == "TimerReset" {
 			t.fired[n.ID] = false
+		}
+		if cb.K == "RequestTx" && t.txMiss { // the application fetches the transactions from its peers: they arrive a little later
+			for _, hx := range cb.Hashes {
+				for k := 0; k < 2; k++ {
+					tx := Tx(fmt.Sprintf("t%d.%d", n.Height+1, k))
+					if string(tx.Hash()) == hx {
+						d := int64(t.rng.Intn(30))
+						if t.delayMax > 0 {
+							d = t.rng.Int63n(t.delayMax + 1)
+						}
+						t.q = append(t.q, delivery{at: t.c.Clk.Now + d, to: n.ID, tx: tx, seq: t.rng.Int()})
+					}
+				}
+			}
 		}
 		if cb.K == "Broadcast" && cb.M.T == "PrepareRequest" && t.dyn && !t.propSeen[cb.M.H] {
 			t.propSeen[cb.M.H] = true
@@ -245,7 +270,12 @@ func (t *timedRun) loopStop(tmax int64, live func() []*Node, hook func(), stop f
 			d := t.q[i]
 			t.q = append(t.q[:i], t.q[i+1:]...)
 			n := c.byID[d.to]
-			if n.started && !t.cut[n.ID] {
+			if d.tx != "" {
+				if n.started {
+					n.Known[d.tx.Hash()] = d.tx
+					t.after(n, n.Transaction(d.tx))
+				}
+			} else if n.started && !t.cut[n.ID] {
 				t.after(n, n.Receive(d.p))
 			}
 		case ns <= now:
@@ -367,6 +397,7 @@ func runSync(out *TraceWriter, seed int64, run int, heights int, forceDyn bool) 
 			t.txOff[h] = []int64{-1, -1, 300, 500, 1000, 1700, 2500, 2990}[rng.Intn(8)]
 		}
 	}
+	t.txMiss = !t.dyn && rng.Intn(3) == 0
 	extraWatch := rng.Intn(100) < 25
 	if rng.Intn(100) < 50 && !t.dyn {
 		// one node gets the traffic of a round in any order (spread over 0.6 block times; its view-0 timer is 2 block times)
@@ -377,7 +408,7 @@ func runSync(out *TraceWriter, seed int64, run int, heights int, forceDyn bool) 
 	out.Write(RunStart{Call: "RunStart", Run: run, Seed: seed, Driver: "sync", Sync: true,
 		Nodes: append(append([]int{}, t.vals...), map[bool][]int{true: {100}, false: {}}[extraWatch]...), Faulty: []int{},
 		Params: map[string]any{"n0": n0, "h0": t.h0, "target": t.target, "delayMax": t.delayMax, "dup": t.dupPct, "resetDelay": t.resetDelay,
-			"amevH": cfg.AmevH, "maxTpb": cfg.MaxTpb, "tpb": t.tpb, "inc": cfg.Inc, "dyn": t.dyn, "victim": t.victim}})
+			"amevH": cfg.AmevH, "maxTpb": cfg.MaxTpb, "tpb": t.tpb, "inc": cfg.Inc, "dyn": t.dyn, "victim": t.victim, "txMiss": t.txMiss}})
 	t.addNodes(cfg, extraWatch)
 	for _, n := range t.c.Nodes {
 		t.setupPool(n)
